@@ -49,8 +49,18 @@ def run(ctx):
     open(tf, "w").write("".join(json.dumps(dict(lo=a, hi=b)) + "\n" for a, b in rows))
     open(rf, "w").write("".join(json.dumps(dict(lo=a, hi=b)) + "\n" for a, b in ir["runs"]))
     common.corrupt_trace(rf, ["hi"])
-    itxt, iinfo = common.tlc(ctx, "ZnIdRange", "ZnIdRange.cfg", workers=1, timeout=600, files=[(tf, "idtable.ndjson"), (rf, "idruns.ndjson")], allow_violation=True)
-    if iinfo["violated"]:
+    lf = os.path.join(ctx.scratch, "idlexruns.ndjson")
+    open(lf, "w").write("".join(json.dumps(dict(lo=a, hi=b)) + "\n" for a, b in ir["lexruns"]))
+    itxt, iinfo = common.tlc(ctx, "ZnIdRange", "ZnIdRange.cfg", workers=1, timeout=600, files=[(tf, "idtable.ndjson"), (rf, "idruns.ndjson"), (lf, "idlexruns.ndjson")], allow_violation=True)
+    if iinfo["violated"] and (("Invariant LexAgrees") in itxt or ("invariant of LexAgrees is equal to FALSE") in itxt):
+        tab = set(); got = set()
+        for a, b_ in rows: tab.update(range(a, b_ + 1))
+        for a, b_ in ir["lexruns"]: got.update(range(a, b_ + 1))
+        want = (tab | {46, 42, 47, 37}) - {20196, 20026, 20197, 20854, 25110, 19988, 20043, 30340}
+        diff = sorted(want ^ got)[:8]
+        common.report(ctx, "idrange:lexer-view", "what the LEXER takes as a name character differs from the identifier table (+ . * / %%, - the one-character keywords), e.g. at %s (%d code points)" % (["U+%04X" % d for d in diff], len(want ^ got)),
+                      dict(first_differences=["U+%04X" % d for d in diff]))
+    elif iinfo["violated"]:
         which = [w for w in ("SameSet", "TableSortedDisjoint", "RowsWellFormed") if ("Invariant " + w) in itxt or ("invariant of " + w + " is equal to FALSE") in itxt]
         if not which:
             raise common.NoVerdict("ZnIdRange failed unexpectedly:\n" + common.tail(itxt))
@@ -102,7 +112,7 @@ def run(ctx):
                     "checked by TLC): classification number/name/reject by exec.MatchIDType, value bit-exact against the correctly rounded double of the denoted decimal; "
                     "tokenisation: all strings <= %d over the full 27-symbol alphabet and <= %s over four reduced alphabets (keywords, keywords2, operators/comments, "
                     "quotes/back-ticks), all strings <= 3 over {letter, blank, each of the 34 keywords of the manual as an atom} (every keyword cut out after / before / between names and other keywords), token kinds and spans of zh.NextToken vs the scanner machine; identifier alphabet: IdInRange over all 0x110000 code points, "
-                    "run-length encoded, validated by TLC against the normal form of the interval table extracted from id_range.go"
+                    "run-length encoded, validated by TLC against the normal form of the interval table extracted from id_range.go; and the LEXER's own view (first token of `a` c `a` for every code point c) validated by TLC against table + {. * / %%} - the eight one-character keywords"
                     % (5 if quick else 6, 3 if quick else 4, "4-5" if quick else "5-6"),
                numeric_vectors=len(nv), numeric_classes=cls, lex_vectors=len(lv), lex_soft_runs=nsoft, idrange_rows=len(rows))
     return cov, ["decimal -> nearest double is computed with math/big (independent of strconv, which the code uses)",
